@@ -39,6 +39,7 @@ type resObs struct {
 	Names    string    `json:"names"`
 	Spell    string    `json:"spell"`
 	Site     string    `json:"site"`
+	ItemsOK  bool      `json:"itemsok"` // API Items:*: the answer is the designated items object / an error for a dangling pointer
 }
 
 var resFlags struct {
@@ -99,7 +100,7 @@ func init() {
 				nodes[i] = snode{n.Doc, n.Path, n.Kind, n.IsRef, n.Full}
 			}
 			return map[string]interface{}{"case": o.Case, "mode": o.Mode, "api": o.API, "kind": o.Kind, "ref": o.Ref,
-				"outcome": o.Outcome, "res": o.Res, "rootsame": o.RootSame, "docs": o.Docs, "nodes": nodes, "target": o.Target}
+				"outcome": o.Outcome, "res": o.Res, "rootsame": o.RootSame, "docs": o.Docs, "nodes": nodes, "target": o.Target, "itemsok": o.ItemsOK}
 		},
 	}
 }
@@ -228,7 +229,7 @@ func runResolveCase(c *expCase) []*resObs {
 			if (k+c.Rot+len(ref))%2 == 0 {
 				o := &resObs{Case: c.Case, Layout: c.Layout, Rot: c.Rot, Mode: "location", API: "WithBase:deadroot", Kind: kind, RefS: ascii(ref),
 					Target: 0, Docs: docs, Nodes: p.nodes, Abstract: c.Nodes, Concrete: concrete, DocURLs: urls,
-					Names: c.Names, Spell: c.Spell, Site: c.Site, RootSame: true}
+					Names: c.Names, Spell: c.Spell, Site: c.Site, RootSame: true, ItemsOK: true}
 				o.Ref, _ = parseAURL(ref)
 				dead := cc.urls[0][:strings.LastIndex(cc.urls[0], "/")+1] + "deadroot.json"
 				callResolve(o, ref, dead, docBytes)
@@ -236,6 +237,24 @@ func runResolveCase(c *expCase) []*resObs {
 			}
 		}
 	}
+	// items objects (the simple schemas of non-body parameters and headers) kept in a document of their own next to
+	// the root: through ResolveItemsWithBase and the older ResolveItems, which takes the same options
+	itemsURL := cc.urls[0][:strings.LastIndex(cc.urls[0], "/")+1] + "itemsdoc.json"
+	docBytes[itemsURL] = []byte(`{"shared":{"id":{"type":"integer","format":"int64"},"tags":{"type":"array","items":{"type":"string"}}}}`)
+	for _, it := range []struct{ ptr, want string }{{"/shared/id", `{"type":"integer","format":"int64"}`},
+		{"/shared/tags", `{"type":"array","items":{"type":"string"}}`}, {"/shared/none", ""}} {
+		for _, mode := range []string{"typed", "generic", "location"} {
+			for _, api := range []string{"Items:ResolveItemsWithBase", "Items:ResolveItems"} {
+				o := &resObs{Case: c.Case, Layout: c.Layout, Rot: c.Rot, Mode: mode, API: api, Kind: "it", RefS: "itemsdoc.json#" + it.ptr,
+					Target: 0, Docs: docs, Nodes: p.nodes, Abstract: c.Nodes, Concrete: concrete, DocURLs: urls,
+					Names: c.Names, Spell: c.Spell, Site: c.Site, RootSame: true}
+				o.Ref, _ = parseAURL(o.RefS)
+				callResolveItems(o, cc.urls[0], docBytes, it.want)
+				out = append(out, o)
+			}
+		}
+	}
+	delete(docBytes, itemsURL)
 	for _, am := range aims {
 		for _, mode := range []string{"typed", "generic", "location"} {
 			apis := []string{"WithBase"}
@@ -246,10 +265,14 @@ func runResolveCase(c *expCase) []*resObs {
 			if am.kind == "s" && mode != "location" && strings.HasPrefix(am.ref, "#") {
 				apis = append(apis, "ResolveRef")
 			}
+			if mode != "location" && strings.HasPrefix(am.ref, "#") {
+				// no options at all: everything needed is in the root that is passed
+				apis = append(apis, "WithBase:nilopts")
+			}
 			for _, api := range apis {
 				o := &resObs{Case: c.Case, Layout: c.Layout, Rot: c.Rot, Mode: mode, API: api, Kind: am.kind, RefS: ascii(am.ref),
 					Target: am.target, Docs: docs, Nodes: p.nodes, Abstract: c.Nodes, Concrete: concrete, DocURLs: urls,
-					Names: c.Names, Spell: c.Spell, Site: c.Site, RootSame: true}
+					Names: c.Names, Spell: c.Spell, Site: c.Site, RootSame: true, ItemsOK: true}
 				o.Ref, _ = parseAURL(am.ref)
 				callResolve(o, am.ref, cc.urls[0], docBytes)
 				out = append(out, o)
@@ -294,6 +317,9 @@ func callResolve(o *resObs, refS, rootURL string, docBytes map[string][]byte) {
 		o.Outcome, o.Err = "error", ascii("NewRef: "+err.Error())
 		return
 	}
+	if o.API == "WithBase:nilopts" {
+		opts = nil
+	}
 	var res interface{}
 	isNil := false
 	switch {
@@ -335,4 +361,59 @@ func callResolve(o *resObs, refS, rootURL string, docBytes map[string][]byte) {
 	o.Outcome = "ok"
 	o.Res = digest(g)
 	o.ResJSON = ascii(string(b))
+	// the answer of the ...WithBase functions is the caller's: scribbling on it leaves the root alone
+	if root != nil && o.API != "ResolveRef" {
+		switch r := res.(type) {
+		case *spec.Schema:
+			r.Title, r.Items, r.Properties, r.AllOf, r.Not = "scribbled", nil, nil, nil, nil
+			r.AdditionalProperties, r.Definitions = nil, nil
+		case *spec.Parameter:
+			r.Name, r.Schema = "scribbled", nil
+		case *spec.Response:
+			r.Description, r.Schema = "scribbled", nil
+		case *spec.PathItem:
+			r.Get, r.Parameters = nil, nil
+		}
+		after, _ := json.Marshal(root)
+		if string(before) != string(after) {
+			o.RootSame = false
+		}
+	}
+}
+
+func callResolveItems(o *resObs, rootURL string, docBytes map[string][]byte, want string) {
+	defer func() {
+		if r := recover(); r != nil {
+			o.Outcome, o.Err = "panic", ascii(fmt.Sprint(r))
+		}
+	}()
+	ld := &recLoader{docs: docBytes, refuse: map[string]bool{}}
+	opts := &spec.ExpandOptions{RelativeBase: rootURL, PathLoader: ld.load}
+	var root interface{}
+	switch o.Mode {
+	case "typed":
+		var sw spec.Swagger
+		_ = json.Unmarshal(docBytes[rootURL], &sw)
+		root = &sw
+	case "generic":
+		var g map[string]interface{}
+		_ = json.Unmarshal(docBytes[rootURL], &g)
+		root = g
+	}
+	ref := spec.MustCreateRef(o.RefS)
+	var res *spec.Items
+	var err error
+	if o.API == "Items:ResolveItems" {
+		res, err = spec.ResolveItems(root, ref, opts) //nolint:staticcheck // the deprecated entry point is part of the API
+	} else {
+		res, err = spec.ResolveItemsWithBase(root, ref, opts)
+	}
+	if err != nil {
+		o.Outcome, o.Err = "error", ascii(err.Error())
+		o.ItemsOK = want == ""
+		return
+	}
+	b, _ := json.Marshal(res)
+	o.Outcome, o.ResJSON = "ok", ascii(string(b))
+	o.ItemsOK = want != "" && jsonEq(b, []byte(want))
 }
